@@ -379,6 +379,10 @@ def run(ctx):
     from . import c06, c16
     c06.rule_flank(ctx, rep, prose_rows_only=True)
     c16.rule_gap_verbatim(ctx, rep)
+    # inert text stays inert only if no markup found in earlier text is attributed to it: the hand-off buffer between
+    # the core-token scan and InlineCode.find is emptied before every scan (shared with C11 / C05)
+    from . import c11
+    c11.rule_handoff(ctx, rep, rule='R-HANDOFF')
 
 
 def check_start_language_notes(ctx, cls_short, method, spec_name, rxv):
